@@ -981,3 +981,53 @@ def _finaliser_bounds(self):
 
 
 HashRules.finaliser_bounds = _finaliser_bounds
+
+
+def _hash_factory(self):
+    """R08.f: the hash-mode byte selects the documented algorithm: mode 0 SHA-1, 1 MD5, 2 SHA-256 (README / format description):
+    the number -> type function followed by the type -> object function yields an object of that class, for each of the three."""
+    prog, rec = self.prog, self.rec
+    T = prog.type
+    makers = [f for f in prog.functions.values() if f.get('rec') and f.get('body') is not None and len(f['params']) == 1
+              and (T(f['ret']) or {}).get('k') == 'ptr' and (T((T(f['ret']) or {}).get('to')) or {}).get('rec') == self.Bq]
+    from wai.facts import outermost
+    makers = outermost(prog, makers) if len(makers) > 1 else makers
+    if len(makers) != 1:
+        rec.ob('R08.f', 'R08.f@%s::mode-byte-selects-the-documented-hash' % self.Bq, None, self.base['file'], 'hash object factory not found (%d candidates)' % len(makers))
+        return
+    mk = makers[0]
+    et = T(mk['params'][0]['t']) or {}
+    conv = [f for f in prog.functions.values() if f.get('rec') == mk['rec'] and f.get('body') is not None and len(f['params']) == 1
+            and (T(f['ret']) or {}).get('k') == 'enum' and (T(f['ret']) or {}).get('enum') == et.get('enum') and (T(f['params'][0]['t']) or {}).get('k') == 'int']
+    where = '%s:%s' % (mk['file'], mk['line'])
+    if len(conv) != 1 or et.get('k') != 'enum':
+        rec.ob('R08.f', 'R08.f@%s::mode-byte-selects-the-documented-hash' % fkey(mk), None, where, 'number -> hash type function not found')
+        return
+    cv = conv[0]
+    want = {0: 'sha1', 1: 'md5', 2: 'sha256'}
+    FAC = ('ext', 'hashfactory')
+    for b, kind in sorted(want.items()):
+        I = interp.Interp(prog, models=dict(models.STD_MODELS))
+        r1 = I.run(cv, interp.State(), this=P(FAC, ()), args=[C(b)])
+        got = None
+        det = ''
+        if len(r1) == 1 and r1[0][1][0] == 'c':
+            I2 = interp.Interp(prog, models=dict(models.STD_MODELS))
+            r2 = I2.run(mk, interp.State(), this=P(FAC, ()), args=[r1[0][1]])
+            rec.saw(I2)
+            classes = set()
+            for s2, v2 in r2:
+                dyn = s2.mem.get((v2[1], v2[2] + ('$dyn',))) if v2[0] == 'p' else None
+                classes.add(dyn[1] if dyn else show(v2))
+            det = 'type %s -> %s' % (show(r1[0][1]), sorted(classes))
+            if len(classes) == 1:
+                c = next(iter(classes))
+                sub = next((x for x in self.subs if x['q'] == c), None)
+                got = self.kind(sub) if sub else None
+        else:
+            det = 'type function gives %s' % [show(v) for _, v in r1]
+        rec.ob('R08.f', 'R08.f@%s::mode-%d-is-%s' % (fkey(mk), b, kind), got == kind, where,
+               'hash mode byte %d: %s (documented: %s)' % (b, det, kind))
+
+
+HashRules.factory = _hash_factory
